@@ -167,18 +167,18 @@ class PrinterModel:
                 side = src(strip(args[2])).split("::")[-1]
                 if src(strip(args[1])) != self.param_core:
                     return [("hole", "other", {"src": src(e0)})]
-                return [("hole", "operand", {"field": fld, "side": side, "src": src(args[0])})]
+                return [("hole", "operand", {"field": fld, "side": side, "src": src(args[0]), "ind": src(args[3])})]
             if last == "protect" and len(args) == 3:
                 fld = self._field_of(args[0], fields, locals_)
-                return [("hole", "protect", {"field": fld, "level": self._level(args[1]), "src": src(args[0])})]
+                return [("hole", "protect", {"field": fld, "level": self._level(args[1]), "src": src(args[0]), "ind": src(args[2])})]
             if last == "to_py" and len(args) == 2:
                 inner = strip(args[0])
                 if inner.get("k") == "struct":
                     return [("hole", "delegate", {"variant": inner["p"].split("::")[-1], "node": inner})]
                 fld = self._field_of(args[0], fields, locals_)
-                return [("hole", "bare", {"field": fld, "src": src(args[0])})]
+                return [("hole", "bare", {"field": fld, "src": src(args[0]), "ind": src(args[1])})]
             if last == "comma_delimited" and len(args) == 2:
-                return [("hole", "comma", {"field": self._field_of(args[0], fields, locals_), "src": src(args[0])})]
+                return [("hole", "comma", {"field": self._field_of(args[0], fields, locals_), "src": src(args[0]), "ind": src(args[1])})]
             if last == "newline_delimited" and len(args) == 2:
                 return [("hole", "nl", {"field": self._field_of(args[0], fields, locals_), "ind": src(args[1]), "src": src(args[0])})]
             if last == "newline_if_body" and len(args) == 2:
@@ -207,6 +207,9 @@ class PrinterModel:
                     return [("hole", "lexeme", {"field": fld})]
         if k == "path":
             if e["p"] in locals_ and isinstance(locals_[e["p"]], list):
+                if locals_.get("__collected__" + e["p"]):
+                    # a `String` collected from a map over a list, printed as it is: the copies are concatenated
+                    return [("hole", "join", {"sep": "", "inner": locals_[e["p"]]})]
                 return locals_[e["p"]]
             if e["p"] in fields:
                 return [("hole", "lexeme", {"field": fields[e["p"]]})]
@@ -282,6 +285,7 @@ class PrinterModel:
                 inner = self._pieces_of_expr(cl["body"], f2, locals_)
                 for nm in names:
                     locals_[nm] = inner
+                    locals_["__collected__" + nm] = True   # one copy of `inner` per element of the list
                     fields.pop(nm, None)
                 return
         if init.get("k") == "tuple" and pat.get("k") == "ptuple" and len(init["elems"]) == len(pat["elems"]):
